@@ -29,9 +29,13 @@ func init() {
 			"validation ('invalid packets are never encapsulated'); the infeasible path 'invalid packet, " +
 			"continue, frame full' is excluded by a checked loop invariant (the position changes only by what " +
 			"copyToFrame returns). (N2) copyToFrame moves min(room, rest) bytes from the front of e.pkt to the " +
-			"old end of e.frame, drops them from e.pkt and returns their count. NOT decided: that the stitched " +
-			"byte ranges are the right ones on the receiver (offsets inside frames in framebuf.go / worker.go), " +
-			"and therefore not the in-order loss-free equality of the two streams as a whole.",
+			"old end of e.frame, drops them from e.pkt and returns their count. Frame format agreement: (H1) " +
+			"worker.processFrame reads index / stream / sequence number at the positions, with the widths and " +
+			"the stream mask encoder.Read writes them with; (H2) frameBuf.ProcessCompletePkts starts at index + " +
+			"header size, takes each packet's length from the same IP header fields the encoder validated, " +
+			"emits exactly frame[offset:offset+length] only when the frame holds that much, and advances by " +
+			"that length. NOT decided: the byte ranges collected from continuation frames in " +
+			"reassemblyList.collectAndWrite, and therefore not the equality of the two streams as a whole.",
 		Run: runC41,
 	})
 	setClaim("C41", claim{
@@ -41,6 +45,20 @@ func init() {
 		Note: claimNote, Technique: "static analysis: guard dominance on the append / emit sites, call pairing on the discard paths, " +
 			"path-sensitive typestate (predicate tracking) of encoder.pkt across Read calls",
 		Ref: "DESIGN.md §0.5 C41"})
+	addMutants(
+		Mutant{Prop: "C41", Name: "receiver-reads-index-at-wrong-position", File: "gateway/dataplane/worker.go",
+			Old: `	index := int(binary.BigEndian.Uint16(frame.raw[2:4]))`, New: `	index := int(binary.BigEndian.Uint16(frame.raw[1:3]))`, Expect: "H1-frame-header-agreement"},
+		Mutant{Prop: "C41", Name: "stream-mask-differs", File: "gateway/dataplane/worker.go",
+			Old: `	epoch := int(binary.BigEndian.Uint32(frame.raw[4:8]) & 0xfffff)`, New: `	epoch := int(binary.BigEndian.Uint32(frame.raw[4:8]) & 0xffff)`, Expect: "H1-frame-header-agreement"},
+		Mutant{Prop: "C41", Name: "ipv6-length-without-header", File: "gateway/dataplane/framebuf.go",
+			Old: `			pktLen += 40`, New: `			pktLen += 20`, Expect: "H2-packet-walk"},
+		Mutant{Prop: "C41", Name: "packet-emitted-when-truncated", File: "gateway/dataplane/framebuf.go",
+			Old: `		if len(rawPkt) < pktLen {
+			break
+		}`, New: `		if len(rawPkt) < pktLen {
+			pktLen = len(rawPkt)
+		}`, Expect: "H2-packet-walk"},
+	)
 	ef := "gateway/dataplane/encoder.go"
 	addMutants(
 		Mutant{Prop: "C41", Name: "whole-packet-deferred-to-next-frame", File: ef,
@@ -100,6 +118,7 @@ func init() {
 
 func runC41(c *Ctx) {
 	c41Encoder(c)
+	c41Receiver(c)
 	lT := "(*gateway/dataplane.reassemblyList)"
 	if v := c.View(lT + ".Insert"); v != nil {
 		rule := "L1-consecutive-frames"
